@@ -190,7 +190,43 @@ def check_c15(pid, tier):
     return 1 if violations else 0
 
 
+def check_c16(pid, tier):
+    t0 = time.time()
+    sd = vlib.seed()
+    binary = vlib.go_build_test("buf")
+    work = vlib.scratch("buf16")
+    quick = tier == "quick"
+    cases_path = os.path.join(work, "cases.ndjson")
+    fh = open(cases_path, "w")
+    dims = (2, 2, 3) if quick else (1, 3, 3)
+    r = vlib.run_tlc("ErrorRetry", "INIT Init\nNEXT Next\nCONSTANTS\n MinN = %d\n MaxN = %d\n MaxSegs = %d\nINVARIANTS Sane Emit\n" % dims,
+                     raw_sink=lambda m, raw: fh.write(raw + "\n"), timeout=3000)
+    fh.close()
+    vlib.require_model_ok(r, "ErrorRetry")
+    rc, out = vlib.run_harness(binary, "TestRetry", {"BUF_CASES": cases_path, "BUF_OUT": work}, timeout=3000)
+    if rc != 0:
+        raise Broken("retry harness failed:\n" + out[-3000:])
+    summ = json.load(open(os.path.join(work, "retry_summary.json")))
+    n_events, rejects, vstates = validate("RetryContractTrace", os.path.join(work, "retry.ndjson"), pid, sd)
+    violations = 0
+    for rj in rejects:
+        path = vlib.save_replay(pid, "s%d_%d" % (sd, violations), {"observation.json": rj["event"]})
+        violations += 1
+        print("VIOLATION property=%s replay=%s" % (pid, path))
+        log("  rejected observation: %s" % json.dumps(rj["event"])[:500])
+    first = json.loads(open(cases_path).readline())
+    cov = {"states": r.distinct, "transitions": max(r.generated, r.distinct), "traces_validated_against_impl": n_events,
+           "cases": summ["cases"], "observations": summ["observations"], "bounds": {"MinN": dims[0], "MaxN": dims[1], "MaxSegs": dims[2]},
+           "exhaustive": True, "trace_validator_states": vstates, "samples": [first]}
+    vlib.write_evidence(pid, tier, "model_checking", cov, time.time() - t0, violations,
+                        ["replacement buffers are CAS buffers over scripted readers / chunk readers delivering the complete object",
+                         "the handler replaces in chain order and translates to UNAVAILABLE when the chain is exhausted"])
+    return 1 if violations else 0
+
+
 def check(pid, tier, replay=None):
+    if pid == "C16":
+        return check_c16(pid, tier)
     if pid == "C09":
         return check_c09(pid, tier)
     if pid == "C15":
